@@ -216,8 +216,22 @@ pub fn run(args: &[String]) -> i32 {
                     let files = vec![(stems[0].to_string(), small), (stems[1].to_string(), big)];
                     let mut schedule = e3::start_barrier(&stems);
                     schedule.extend(stems.iter().map(|s| format!("send:{s}")));
-                    jobs.push(Job { class: format!("split|{}", lang.name()), files, schedule, expect_events: None, lang, multi: false, threads: 2, family: "splits-by-size" });
+                    jobs.push(Job { class: format!("split|{}", lang.name()), files: files.clone(), schedule, expect_events: None, lang, multi: false, threads: 2, family: "splits-by-size" });
+                    // the same two files found by a directory walk (files named as roots bypass what the walker leaves out)
+                    if rel == 1 {
+                        jobs.push(Job { class: format!("split|{}", lang.name()), files, schedule: vec![], expect_events: None, lang, multi: false, threads: 2, family: "splits-by-size-below-a-directory" });
+                    }
                 }
+            }
+        }
+        // 3b'. one item alone in a file of 1, 2 and 5 MiB, found by a directory walk
+        for mib in [1usize, 2, 5] {
+            for &lang in &split_langs {
+                let its = items(lang);
+                let big = format!("//{}\n{}", "x".repeat(mib * 1024 * 1024), its[1]);
+                let small = [its[0].clone(), its[2].clone(), its[3].clone(), its[4].clone()].join("\n");
+                let files = vec![(STEMS[0].to_string(), small), (STEMS[1].to_string(), big)];
+                jobs.push(Job { class: format!("split|{}", lang.name()), files, schedule: vec![], expect_events: None, lang, multi: false, threads: 2, family: "splits-by-size-below-a-directory" });
             }
         }
     }
@@ -340,7 +354,7 @@ pub fn run(args: &[String]) -> i32 {
     {
         let mut seen_fams: BTreeSet<&str> = BTreeSet::new();
         let pilot: Vec<&Job> = jobs.iter().filter(|j| seen_fams.insert(j.family)).collect();
-        let pres: Vec<Replay> = par_map(&pilot, report::threads(), |j| e3::replay(&j.files, &j.schedule, j.lang, j.multi, j.threads, &[]));
+        let pres: Vec<Replay> = par_map(&pilot, report::threads(), |j| if j.family.ends_with("below-a-directory") { e3::replay_below_a_directory(&j.files, j.lang, j.multi, j.threads) } else { e3::replay(&j.files, &j.schedule, j.lang, j.multi, j.threads, &[]) });
         let hangs: Vec<(&&Job, &Replay)> = pilot.iter().zip(pres.iter()).filter(|(_, r)| r.class == "hang").collect();
         let infeasible = pres.iter().filter(|r| r.class == "schedule-infeasible").count();
         if !hangs.is_empty() || infeasible * 2 > pilot.len() {
@@ -359,7 +373,7 @@ pub fn run(args: &[String]) -> i32 {
             return rep.finish();
         }
     }
-    let results: Vec<Replay> = par_map(&jobs, report::threads(), |j| e3::replay(&j.files, &j.schedule, j.lang, j.multi, j.threads, &[]));
+    let results: Vec<Replay> = par_map(&jobs, report::threads(), |j| if j.family.ends_with("below-a-directory") { e3::replay_below_a_directory(&j.files, j.lang, j.multi, j.threads) } else { e3::replay(&j.files, &j.schedule, j.lang, j.multi, j.threads, &[]) });
     let mut classes: BTreeMap<String, BTreeMap<String, usize>> = BTreeMap::new(); // class -> outputs key -> first job index
     let mut fam_counts: BTreeMap<&str, u64> = BTreeMap::new();
     let mut conformance_ok = 0u64;
